@@ -262,6 +262,94 @@ def consumed_keys(fd):
     return popped, remainder, kw, passed
 
 
+UNWRAP_ATTR = ('data', 'values')
+UNWRAP_CALL = ('float', 'complex', 'int', 'np.asarray', 'np.array',
+               'np.float64')
+
+
+def xr_typed(e, env):
+    """Is the value of expression `e` an xarray object?  (Axiom A8: reading a
+    variable of the survey Dataset gives a DataArray; arithmetic, numpy
+    reductions and ufuncs of a DataArray give a DataArray; `.data`,
+    `.values`, `.item()`, `float()` ... unwrap.)"""
+    if isinstance(e, ast.Name):
+        return env.get(e.id, False)
+    if isinstance(e, ast.Attribute):
+        if e.attr in UNWRAP_ATTR:
+            return False
+        base = ast.unparse(e.value)
+        if base in ('self.data', 'self.survey.data', 'self._data'):
+            return True
+        return xr_typed(e.value, env) if e.attr in (
+            'real', 'imag', 'T') else False
+    if isinstance(e, ast.Subscript):
+        base = ast.unparse(e.value)
+        if base in ('self.data', 'self.survey.data', 'self._data'):
+            return True
+        return xr_typed(e.value, env)
+    if isinstance(e, ast.BinOp):
+        return xr_typed(e.left, env) or xr_typed(e.right, env)
+    if isinstance(e, ast.UnaryOp):
+        return xr_typed(e.operand, env)
+    if isinstance(e, ast.Call):
+        f = ast.unparse(e.func)
+        if f in UNWRAP_CALL:
+            return False
+        if f.startswith('np.') or f.startswith('numpy.'):
+            return any(xr_typed(a, env) for a in e.args)
+        if isinstance(e.func, ast.Attribute):
+            if e.func.attr in ('item', 'to_numpy', 'tolist'):
+                return False
+            if e.func.attr in ('conj', 'sum', 'copy', 'where', 'sel', 'loc',
+                               'mean', 'real', 'imag', 'astype'):
+                return xr_typed(e.func.value, env)
+        if f.startswith('np.'):
+            return any(xr_typed(a, env) for a in e.args)
+    return False
+
+
+def rule_K2_plain(ctx):
+    """What Simulation.to_dict emits under 'misfit' is written by all three
+    back ends and read back as a plain number (h5: numpy scalar, npz: 0-d
+    array, json: float).  So (a) the cached value must be a plain number, not
+    an xarray object (json cannot write it), and (b) the getter must return it
+    in a way that works for a plain number (`.data` of a number is a
+    memoryview)."""
+    sm = ctx.repo.mod('emg3d/simulations.py')
+    mf = [m for m in sm.methods('Simulation', 'misfit')
+          if 'property' in au.decorator_names(m)]
+    ctx.anchor(len(mf) == 1, 'Simulation.misfit getter')
+    g = mf[0]
+    env = {}
+    stores = []
+    for st in sorted((n for n in ast.walk(g) if isinstance(n, ast.Assign)),
+                     key=lambda n: (n.lineno, n.col_offset)):
+        if True:
+            v = xr_typed(st.value, env)
+            for t in st.targets:
+                if isinstance(t, ast.Name):
+                    env[t.id] = v
+                elif ast.unparse(t) == 'self._misfit':
+                    stores.append((st, v))
+    ctx.anchor(len(stores) >= 1, 'store of self._misfit in the getter')
+    for st, v in stores:
+        ctx.check('C17.K2.plain', 'Simulation.misfit: cached value is a plain '
+                  'number', not v, f'`{au.stext(st)[:70]}` caches an xarray '
+                  "object; to_dict emits it under 'misfit': the json back end "
+                  'cannot write it and h5/npz give back a number of another '
+                  'type', ctx.where(sm, st))
+    for r in [n for n in ast.walk(g) if isinstance(n, ast.Return) and n.value
+              is not None]:
+        txt = ast.unparse(r.value)
+        ok = txt == 'self._misfit' or txt in (
+            'float(self._misfit)', 'np.asarray(self._misfit)',
+            'np.float64(self._misfit)')
+        ctx.check('C17.K2.plain', 'Simulation.misfit: getter works for a '
+                  'reloaded value', ok, f'the getter returns `{txt}`; after '
+                  'from_dict/from_file `_misfit` is a plain number (its '
+                  '`.data` is a memoryview)', ctx.where(sm, r))
+
+
 def rule_K1_K2(ctx, C):
     um = ctx.repo.mod(UTILS)
     reg = um.func('_known_class')
@@ -573,6 +661,7 @@ def run(ctx):
                        'is not decided']
     C = Classes(ctx)
     known = rule_K1_K2(ctx, C)
+    rule_K2_plain(ctx)
     ctx.extra['registered_classes'] = sorted(known)
     rule_K3_K4(ctx)
     rule_oneshot(ctx)
